@@ -5,8 +5,9 @@
              | i <i> <j> <k> | c <i> <var> <0|1> | e <i> <var> | m <i> <var> <j>
              | k <n> followed by n clauses, each <len> <lit>...   compile_cnf; lit = 2*var + polarity
    out:   <id> <unfolding of every pool entry> # <index of the first equal pool entry, per entry>
-          with compression off AND a compile_cnf in the program the clause order after the code's
-          sort is not determined, hence only denotations are: <id> <truth table of every entry> # tt
+          with compression off the shape of a result is not fixed by any property (element visiting
+          order, clause order after the code's sort), hence only denotations are compared:
+          <id> <truth table of every entry> # tt
    (the unique-table capacity <cap> has no counterpart in the model) *)
 let rec parse_vt = function
   | "L" :: v :: r -> (VLeaf (n_of_int (int_of_string v)), r)
@@ -63,7 +64,7 @@ let () =
     | id :: comp :: _cap :: rest -> with_budget id (fun () ->
       let (t, r1) = parse_vt rest in
       let ops = match r1 with ";" :: r -> parse_ops [] r | [] -> [] | _ -> failwith "bad case" in
-      let tt_mode = comp <> "1" && List.exists (function OCnf _ -> true | _ -> false) ops in
+      let tt_mode = comp <> "1" in
       (match run_prog t (comp = "1") ops with
        | Ok pool when tt_mode ->
          print_endline (String.concat " " (id :: List.map tt pool @ ["#"; "tt"]))
